@@ -544,6 +544,7 @@ class IterMesh(MeshBase):
                 eigenvalues = eigvals.real
             else:
                 eigenvalues = np.linalg.eigvalsh(dm).real
+                eigenvectors = None
             frequencies = (
                 np.array(
                     np.sqrt(abs(eigenvalues)) * np.sign(eigenvalues),
